@@ -170,6 +170,10 @@ def run_property(prop, tier='quick', seed=0, jobs=12):
     pm = importlib.import_module('props.' + prop)
     funcs = list(pm.FUNCTIONS)
     lemmas = [l.name for l in REG.lemmas if prop in l.props]
+    if os.environ.get('PYVC_ONLY'):          # debugging aid: a subset of functions, no evidence
+        funcs = os.environ['PYVC_ONLY'].split(',')
+        lemmas = []
+        os.environ['PYVC_NO_EVIDENCE'] = '1'
     tasks = []
     for q in funcs:
         c = REG.contracts.get(q)
